@@ -390,6 +390,51 @@ def literal_failures(r, n):
     return fails
 
 
+NORM_DESCRIPTIONS = ['WHOLE\tFOODS MKT', 'WHOLE\u00a0FOODS', 'WHOLE\u2009FOODS 12', 'WHOLE FOODS', 'WHOLEFOODS', "TRADER JOE'S #5", 'TRADER  JOES', 'TRADER-JOE.S', 'A*B C',
+                     'WHOLE\u3000FOODS', 'WHOLE\nFOODS', 'whole.foods', 'WHOLE FOOD']
+NORM_PATTERNS = ['WHOLEFOODS', 'WHOLE FOODS', 'whole-foods', 'TRADERJOES', "TRADER JOE'S", 'ABC', 'WHOLE\tFOODS', 'FOODS MKT', 'wholefood']
+
+
+def spec_norm(x):
+    """normalized(): blanks of EVERY kind, hyphens, apostrophes, dots and asterisks do not count, letter case does not count"""
+    return ''.join(ch for ch in x.upper() if not ch.isspace() and ch not in "-'.*")
+
+
+def normalized_failures(r, n):
+    fails = []
+    for _ in range(n):
+        desc, pat = r.choice(NORM_DESCRIPTIONS), r.choice(NORM_PATTERNS)
+        txn = {'description': desc, 'amount': 1.0, 'field': None, 'source': None, 'location': None}
+        lit = pat.replace('\\', '\\\\').replace('"', '\\"').replace('\t', '\\t').replace('\n', '\\n')
+        for text, want in ((f'normalized("{lit}")', spec_norm(pat) in spec_norm(desc)), (f'not normalized("{lit}")', spec_norm(pat) not in spec_norm(desc))):
+            o = ev(text, txn)
+            if not same(o, {'ok': exprs.val_json(want)}):
+                fails.append({'class': 'normalized-ignores-blanks-and-punctuation', 'expr': text, 'observed': o, 'required': {'ok': exprs.val_json(want)},
+                              'txn': RC.jtxn(txn)})
+    return fails
+
+
+VALUE_OPERANDS = ['amount', 'source', 'description', '0', '""', '"x"', 'rows', 'empty', 'len(rows)', 'field.memo', '(m2 := rows)', 'amount - amount',
+                  'trim(description)', 'month', 'date', '1.5', 'extract("(ZZZQ)")', 'true', 'false']
+
+
+def boolean_result_failures(r, txn, n):
+    """`and` / `or` are BOOLEAN: whatever the operands evaluate to, the result is True or False (their truth values combined)"""
+    fails = []
+    t = dict(txn, field=dict(txn.get('field') or {}, memo='m'))
+    for _ in range(n):
+        x, y = r.choice(VALUE_OPERANDS), r.choice(VALUE_OPERANDS)
+        ox, oy = ev(x, t), ev(y, t)
+        if 'ok' not in ox or 'ok' not in oy:
+            continue
+        bx, by = as_bool(ox)['ok']['v'], as_bool(oy)['ok']['v']
+        for text, want in ((f'{x} and {y}', bool(bx and by)), (f'{x} or {y}', bool(bx or by)), (f'({x} and {y}) == {str(bool(bx and by)).lower()}', True)):
+            o = ev(text, t)
+            if not same(o, {'ok': exprs.val_json(want)}):
+                fails.append({'class': 'and-or-give-a-boolean', 'expr': text, 'observed': o, 'required': {'ok': exprs.val_json(want)}, 'txn': RC.jtxn(t)})
+    return fails
+
+
 def _nonfinite(o):
     v = o.get('ok', {})
     return v.get('t') == 'flt' and (v['v'] == 'nan' or math.isinf(common.bits_float(v['v'])))
@@ -528,6 +573,12 @@ def run(ctx):
         sc_items.append((r.choice([f'contains("{p1}")', f'startswith("{p1}")', f'anyof("{p1}", "{p2}")', f'"{p1}" in description']), t_lit, None, ROWS, 'literal'))
     for text, vs, _ in resolution_items():
         sc_items.append((text, evalcorr.BASE_TXN, vs, ROWS, 'resolution'))
+    for _ in range(150 if ctx.quick else 3000):
+        t_n = {'description': r.choice(NORM_DESCRIPTIONS), 'amount': 1.0, 'field': None, 'source': None, 'location': None}
+        pat = r.choice(NORM_PATTERNS).replace('"', '\\"').replace('\t', '\\t').replace('\n', '\\n')
+        sc_items.append((f'normalized("{pat}")', t_n, None, ROWS, 'normalized'))
+        x, y = r.choice(VALUE_OPERANDS), r.choice(VALUE_OPERANDS)
+        sc_items.append((f'{x} {r.choice(["and", "or"])} {y}', evalcorr.BASE_TXN, None, ROWS, 'boolean-result'))
     for text, _ in near_items():
         sc_items.append((text, evalcorr.BASE_TXN, None, ROWS, 'near'))
     n5, dis5, st5 = evalcorr.run_stream(sc_items, root=False)
@@ -591,6 +642,10 @@ def run(ctx):
         for _ in range(40 if ctx.quick else 1500):
             prop_fail.extend(short_circuit_failures(r, GR.gen_txn(r), 10))
             nl += 10
+        prop_fail.extend(normalized_failures(r, 120 if ctx.quick else 4000))
+        for _ in range(20 if ctx.quick else 600):
+            prop_fail.extend(boolean_result_failures(r, GR.gen_txn(r), 8))
+        nl += 120 + 160
         prop_fail.extend(resolution_failures(GR.gen_txn(r)))
         prop_fail.extend(near_failures())
         prop_fail.extend(literal_failures(r, 150 if ctx.quick else 5000))
@@ -632,7 +687,9 @@ def run(ctx):
             if not out and _ % 10 == 0:
                 out.extend(literal_failures(r, 5))
             if not out and _ == 0:
-                out.extend(resolution_failures(GR.gen_txn(r)) + near_failures())
+                out.extend(resolution_failures(GR.gen_txn(r)) + near_failures() + normalized_failures(r, 200))
+            if not out:
+                out.extend(boolean_result_failures(r, GR.gen_txn(r), 3))
             if out:
                 break
         ctx.cov['evaluations'] += 4000
